@@ -54,14 +54,14 @@ def load_callgraph(M):
     import pickle
     from nixsa.callgraph import CallGraph
     d = os.path.join(os.path.dirname(os.path.dirname(os.path.abspath(__file__))), ".cache")
-    p = os.path.join(d, "cg-%s.pkl" % M.digest[:24])
+    p = os.path.join(d, "cg2-%s.pkl" % M.digest[:24])
     if os.path.exists(p):
         try:
             with open(p, "rb") as fh:
                 data = pickle.load(fh)
             cg = CallGraph.__new__(CallGraph)
             cg.M = M
-            cg.direct, cg.edges, cg.may_write = data
+            cg.direct, cg.edges, cg.may_write, cg.ops = data
             return cg
         except Exception:
             pass
@@ -70,7 +70,7 @@ def load_callgraph(M):
         os.makedirs(d, exist_ok=True)
         tmp = p + ".%d.tmp" % os.getpid()
         with open(tmp, "wb") as fh:
-            pickle.dump((cg.direct, cg.edges, cg.may_write), fh)
+            pickle.dump((cg.direct, cg.edges, cg.may_write, cg.ops), fh)
         os.replace(tmp, p)
     except OSError:
         pass
